@@ -109,7 +109,7 @@ def _maxwidth(spec):
 
 def _kind(spec):
     t = spec.get('t')
-    if t in ('mpf', 'float', 'str', 'frac', 'int'):
+    if t in ('mpf', 'float', 'str', 'frac', 'mpq', 'int'):
         return 'real' if t != 'int' else 'int'
     if t in ('mpc', 'complex'):
         return 'cplx'
@@ -253,10 +253,12 @@ class _Gen(object):
             steps.append(st)
             self.calls.append(st['id'])
             c2 = r.random()
-            if c2 < 0.2:
+            if c2 < 0.15:
                 rp = json.loads(json.dumps(st)); rp['id'] = self.new_id(); rp['repeat'] = 1
                 steps.append(rp)
-            elif c2 < 0.3:
+            elif c2 < 0.35:
+                # excursion: the same call at a higher precision (fills whatever cache there is), then
+                # back at the original precision - a cached wider value must not come back unrounded
                 back = self.gm.get('mp')[0]
                 steps.append(self.setprec(min(e.maxprec, back * 2 + 30)))
                 rp = json.loads(json.dumps(st)); rp['id'] = self.new_id(); rp['repeat'] = 1
